@@ -207,8 +207,10 @@ def rule_budget_clamp(ctx: Ctx, rule: str) -> None:
                    'current_limit in all three loops)')
     repo = ctx.repo
     n = 0
-    for mod, qn, lim, cur in LOOPS:
-        fi = repo.func(mod, qn)
+    budget_fns = [(m, fi_) for m in (WP, 'glob') for fi_ in repo.mod(m).functions.values() if hasattr(fi_.node, 'body') and not isinstance(fi_.node, ast.Lambda)]
+    for mod, fi in budget_fns:
+        if not any(isinstance(x, (ast.AugAssign, ast.BinOp)) and isinstance(x.op, ast.Sub) for x in walk_no_nested(fi.node)):
+            continue
         q = fq(fi)
         for s in q.stmts(lambda x: isinstance(x, ast.AugAssign) and isinstance(x.op, ast.Sub)):
             tgt = norm_src(s.target)
@@ -246,7 +248,7 @@ def rule_budget_clamp(ctx: Ctx, rule: str) -> None:
                 any(isinstance(a, ast.Constant) and isinstance(a.value, int) and a.value >= 1 for a in p.args)
             ctx.ob(rule, f'{fi.fq}/{norm_src(b)}', okm, repo.loc(mod, b), 'clamped: max(<budget> - n, 1)', norm_src(p)[:70] if p is not None else '?',
                    witness="fnmatch('a', '{1..100}', flags=BRACE, limit=3, exclude=['x','y','z']) must raise: a budget of 0 would mean unlimited")
-    ctx.floor(rule, 'budget subtractions', n, 5)
+    ctx.floor(rule, 'budget subtractions', n, 3)
 
 
 def rule_budget_continuity(ctx: Ctx, rule: str) -> None:
